@@ -71,21 +71,27 @@ def is_quarter(v):
 def to_z_case(aug):
     """grid case -> pcontz line, or None when the path has curves or off-grid numbers"""
     t = aug.split()
-    x, y = bits_f32(int(t[3])), bits_f32(int(t[4]))
-    w, ops, i = _path.parse_path(t, 5)
-    if not (is_quarter(x) and is_quarter(y)):
-        return None
-    zops = []
-    for o in ops:
-        if o[0] in ("M", "L"):
-            if not (is_quarter(o[1]) and is_quarter(o[2])):
-                return None
-            zops.append("%s %d %d" % (o[0], int(o[1] * 4), int(o[2] * 4)))
-        elif o[0] == "Z":
-            zops.append("Z")
-        else:
-            return None
-    return "pcontz %s %d %d %d %d %s" % (t[1], w, int(x * 4), int(y * 4), len(zops), " ".join(zops))
+    x0, y0 = bits_f32(int(t[3])), bits_f32(int(t[4]))
+    w, ops0, i = _path.parse_path(t, 5)
+    # the statement is invariant under scaling; shapes scaled by a power of two are judged on the unscaled grid
+    for k in (1.0, 1024.0, 65536.0, 1.0 / 1024):
+        x, y = x0 * k, y0 * k
+        ops = [((o[0], o[1] * k, o[2] * k) if o[0] in ("M", "L") else o) for o in ops0]
+        if not (is_quarter(x) and is_quarter(y)):
+            continue
+        zops, ok = [], True
+        for o in ops:
+            if o[0] in ("M", "L"):
+                if not (is_quarter(o[1]) and is_quarter(o[2])):
+                    ok = False; break
+                zops.append("%s %d %d" % (o[0], int(o[1] * 4), int(o[2] * 4)))
+            elif o[0] == "Z":
+                zops.append("Z")
+            else:
+                ok = False; break
+        if ok:
+            return "pcontz %s %d %d %d %d %s" % (t[1], w, int(x * 4), int(y * 4), len(zops), " ".join(zops))
+    return None
 
 
 SPEC = {}
